@@ -16,10 +16,8 @@ pub(crate) trait ValidateShape {
 impl ValidateShape for Vec<usize> {
 
     fn is_broadcastable(&self, other: &[usize]) -> Result<(), ArrayError> {
-        if self.iter()
-            .zip(other.iter())
-            .take(self.len().max(other.len()))
-            .rev()
+        if self.iter().rev()
+            .zip(other.iter().rev())
             .any(|(&dim1, &dim2)| dim1 != dim2 && dim1 != 1 && dim2 != 1 || dim1 == 0 || dim2 == 0) {
             Err(ArrayError::BroadcastShapeMismatch)
         } else {
